@@ -621,9 +621,50 @@ def w_irq_role(item, rep):
                                       {"part": "irq-role", "cls": cls_name, "seed": seed})
 
 
+def w_arc_enum(item, rep):
+    """last_tx_arc over the whole range of the counter: every arc 0..15 x every number k of lost transmissions
+    0..arc+1 (k <= arc: acknowledged after k retransmissions; k = arc+1: MAX_RT after arc retransmissions), then a
+    second packet that gets through at once (the counter restarts)"""
+    cls_name, seed, pid = item
+    lite = cls_name == "lite"
+    for arc in range(16):
+        for k in range(arc + 2):
+            s = mk_root(dict(cls=cls_name, role="tx", mode="dyn", ackpl=False), seed)
+            s.w.activate()
+            d = s.d
+            d.arc = arc
+            s.w.advance(100 * US)
+            apply_event(s, ("tx", 5, k, 0, False), seed)
+            want = min(k, arc)
+            got = d.last_tx_arc if not lite else (d._reg_read(8) & 0x0F if not hasattr(d, "last_tx_arc") else d.last_tx_arc)
+            ok = bool(s.rd.r[0x07] & 0x20)
+            rep.case()
+            rep.transitions += 1
+            rep.traces += 1
+            rep.outcome("arc-enum:%s:%s" % ("sent" if ok else "failed", "retx" if want else "first-try"))
+            rep.nt("arc-enum:%d:%d" % (arc, k))
+            if s.last_retx != want or ok != (k <= arc):
+                raise HarnessError("arc %d, %d lost: %d retransmissions on the air, delivered=%s" % (arc, k, s.last_retx, ok))
+            if got != want:
+                rep.violation("%s/value:last_tx_arc:%s" % (pid, "retx>=8" if want >= 8 else "retx<8"),
+                              "arc=%d, the first %d transmission(s) lost: last_tx_arc is %r, the packet was retransmitted %d time(s)" % (arc, k, got, want),
+                              {"part": "arc-enum", "cls": cls_name, "seed": seed, "arc": arc, "lost": k})
+                continue
+            if not ok:
+                d.flush_tx()
+                d.clear_status_flags()
+            apply_event(s, ("tx", 1, 0, 0, False), seed)
+            got2 = d.last_tx_arc
+            if got2 != 0:
+                rep.violation("%s/value:last_tx_arc:not-restarted" % pid, "after a packet that got through at once last_tx_arc is %r (the one before needed %d)" % (got2, want),
+                              {"part": "arc-enum", "cls": cls_name, "seed": seed, "arc": arc, "lost": k})
+
+
 def run_accessors(tier, seed, rep, cls_name="full", pid=PID, only=None):
     if not only or "irqrole" in only:
         pmap(w_irq_role, [(cls_name, seed, pid)], rep)
+    if (not only or "arc" in only) and hasattr(H.LiteRF24 if cls_name == "lite" else H.RF24, "last_tx_arc"):
+        pmap(w_arc_enum, [(cls_name, seed, pid)], rep)
     items, depth = plan(tier, cls_name)
     work = []
     for spec, prefix, group, dep, v in items:
@@ -659,7 +700,7 @@ def run(tier, seed, rep, only=None):
         exhaustive=True,
         rule="E-BFS with duplicate-state elimination: from every root all sequences over (traffic events + accessor calls of the group) "
              "up to the depth are applied to deep-copied (world, RF24, radio, ghost) states; the oracle runs after every operation. "
-             "Groups: fifo = update/available/pipe/any/read/read(n)/fifo(7 forms)/tx_full/irq_*/flush_rx/flush_tx/last_tx_arc + full traffic alphabet; "
+             "E-ENUM of last_tx_arc over arc 0..15 x 0..arc+1 lost transmissions (+ a following packet that gets through at once). Groups: fifo = update/available/pipe/any/read/read(n)/fifo(7 forms)/tx_full/irq_*/flush_rx/flush_tx/last_tx_arc + full traffic alphabet; "
              "flags = clear_status_flags (8 combinations + default) + reduced traffic; irq = interrupt_config (8 + default) + single-flag clears "
              "+ reduced traffic; all = union of the three accessor alphabets + reduced traffic, one level shallower (cross-group interleavings). A transition is non-trivial when a FIFO is occupied, a flag is latched or it is a traffic event; distinct is "
              "counted conservatively as distinct (search, RX occupancy + head pipe/length, TX occupancy, latched flags, cached STATUS, operation) - "
@@ -678,10 +719,10 @@ def run(tier, seed, rep, only=None):
 
 def replay(data):
     r = data["replay"]
-    if r.get("part") == "irq-role":
+    if r.get("part") in ("irq-role", "arc-enum"):
         from ..engine import Report
         rp = Report()
-        w_irq_role((r["cls"], r["seed"], data.get("property", PID)), rp)
+        (w_irq_role if r["part"] == "irq-role" else w_arc_enum)((r["cls"], r["seed"], data.get("property", PID)), rp)
         want = data.get("signature")
         return [(s_, v_["what"]) for s_, v_ in rp.violations.items() if want is None or s_ == want]
     spec, ops, seed = r["spec"], [tuple(o) for o in r["ops"]], r["seed"]
